@@ -48,7 +48,7 @@ class Report:
              'samples': self.samples[:8], 'input_distribution': dict(self.dist),
              'result_classes': dict(self.classes), 'disagreements': len(self.disagreements),
              'predicate_failures': len(self.failures), 'search_evaluations': self.search_evals,
-             'badcases_excluded': self.badcases}
+             'badcases_excluded': self.badcases, 'model_executor_unavailable': getattr(self, 'model_unavailable', 0)}
         c.update(self.notes)
         if self.exhaustive is not None:
             c['exhaustive'] = self.exhaustive
@@ -96,6 +96,10 @@ def run_compare(ctx, rep, cases, tags, observe, which=IMPLS, nontrivial=None, ru
         m = mod[i]
         if cls(m) == 'BADCASE' or any(cls(res[w][i]) == 'BADCASE' for w in which):
             rep.badcases += 1
+            continue
+        if cls(m) in ('HANG', 'ABORT', 'MISSING', 'MODEL_STACK_OVERFLOW'):
+            # the model executor itself did not answer (resource limits of this machine): nothing to compare with
+            rep.model_unavailable = getattr(rep, 'model_unavailable', 0) + 1
             continue
         rep.classes[cls(res[which[0]][i])] += 1
         if nontrivial is None or nontrivial(c, m):
